@@ -678,6 +678,158 @@ def run_G(case):
 
 
 # =================================================================================================
+# space H: call histories - the plan must not depend on what was called before it in the same process
+# =================================================================================================
+# Target plans: cross-CRS pairs whose local scale varies across the raster (10 km ground pixels) + two same-CRS controls.
+# (src epsg, dst epsg, lon, lat, ground pixel m, scale class, placement) in the vocabulary of space B
+PAIRS_H = {
+    "hl-geo>merc": (4326, 3857, 20.0, 72.0, 10e3, "three", "contained"),
+    "hl-merc>geo": (3857, 4326, 20.0, 72.0, 10e3, "one", "corner"),
+    "geo>polar": (4326, 3413, -40.0, 72.0, 10e3, "three", "contained"),
+    "laea>geo": (3035, 4326, 35.0, 66.0, 10e3, "one", "right"),
+    "geo>utm-far": (4326, 32633, 25.0, 62.0, 10e3, "three", "contained"),
+    "utm-far>merc": (32633, 3857, 24.0, 60.0, 10e3, "third", "contained"),
+    # same CRS: (index into SRC_A, dst shape, (sx, sy), rot, shift)
+    "same-paste": (0, (5, 6), (2.0, 2.0), 0, (2.0, -2.0)),
+    "same-rot": (1, (5, 6), (1.5, 1.5), 15, (-1.7, -2.3)),
+}
+OTHER_H = (4326, 3577, 133.0, -25.0, 1000.0, "one", "corner")  # the "other" cross-CRS pair of the interfering calls
+OTHER_SAME_H = (2, (5, 6), (0.5, 0.5), 0, (1.3, 2.3))
+R_H = (None, 0, 0.5, 16, 1e3)
+# interfering public calls: name -> call class used in finding keys
+CALLS_H = {}
+for _w in ("same", "other"):
+    for _r in R_H:
+        CALLS_H[f"scale-at-point:{_w}:r={_r}"] = "scale-at-point-default-r" if _r is None else "scale-at-point-explicit-r"
+CALLS_H.update({
+    "plan:other": "plan-other-pair", "plan:other:pad2-align4": "plan-other-pair", "plan:other-same-crs": "plan-other-pair",
+    "pix-transform:other": "native-pix-transform",
+    "gbx:fwd-out-of-range": "gbx-out-of-range", "gbx:back-out-of-range": "gbx-out-of-range",
+})
+
+
+def _pair_H(spec):
+    """-> (src GeoBox, dst GeoBox, es, ed) ; es/ed None for same-CRS pairs"""
+    if len(spec) == 7:
+        es, ed, lon, lat, g, kname, pname = spec
+        sA, dA, dshape = build_B(es, ed, lon, lat, g, kname, pname, "north-up")
+        return GeoBox(SRC_B, sA, f"EPSG:{es}"), GeoBox(dshape, dA, f"EPSG:{ed}"), es, ed
+    si, dshape, sc, rot, (lx, ly) = spec
+    sshape, sA, crs = SRC_A[si]
+    B, _, _ = _base(dshape, sc, 0, rot)
+    S = Affine(*sA)
+    return GeoBox(sshape, S, crs), GeoBox(dshape, S * Affine.translation(lx, ly) * B, crs), None, None
+
+
+def _interfere(name, src, dst):
+    """One interfering public call; whatever it returns or raises is not the subject here."""
+    try:
+        kind = name.split(":")
+        if kind[0] == "scale-at-point":
+            a, b = (src, dst) if kind[1] == "same" else _pair_H(OTHER_H)[:2]
+            r = {str(v): v for v in R_H}[kind[2][2:]]
+            tr = OV.native_pix_transform(a, b)
+            pt = xy_(b.shape[1] / 2, b.shape[0] / 2)
+            if r is None:
+                OV.get_scale_at_point(pt, tr.back)
+            else:
+                OV.get_scale_at_point(pt, tr.back, r)
+        elif name == "plan:other":
+            a, b = _pair_H(OTHER_H)[:2]
+            OV.compute_reproject_roi(a, b)
+        elif name == "plan:other:pad2-align4":
+            a, b = _pair_H(OTHER_H)[:2]
+            OV.compute_reproject_roi(b, a, padding=2, align=4)
+        elif name == "plan:other-same-crs":
+            a, b = _pair_H(OTHER_SAME_H)[:2]
+            OV.compute_reproject_roi(a, b)
+        elif name == "pix-transform:other":
+            a, b = _pair_H(OTHER_H)[:2]
+            tr = OV.native_pix_transform(a, b)
+            tr.back([xy_(0.5, 0.5), xy_(3.0, 7.0)])
+            tr([xy_(0.5, 0.5)])
+            _ = tr.linear
+        else:
+            geo = GeoBox((18, 36), Affine(10.0, 0, -180.0, 0, -10.0, 90.0), "EPSG:4326")
+            mer = GeoBox((36, 36), Affine(1.1e6, 0, -1.98e7, 0, -1.1e6, 1.98e7), "EPSG:3857")
+            tr = OV.GbxPointTransform(geo, mer)
+            if name == "gbx:fwd-out-of-range":
+                tr([xy_(-1.0, -0.5), xy_(37.0, 18.5), xy_(1e6, -1e6), xy_(18.0, 9.0)])  # lon/lat beyond +-180 / +-90
+            else:
+                tr.back([xy_(-5.0, -400.0), xy_(1e5, 1e5), xy_(18.0, 18.0)])
+        return "ok"
+    except Exception as e:  # pylint: disable=broad-except
+        return type(e).__name__
+
+
+def _snapshot(info, src, dst):
+    """Everything observable of a plan, as plain comparable values (nan-safe through repr)."""
+    ny, nx = dst.shape
+    my, mx = src.shape
+    fwd = info.transform([xy_(0.5, 0.5), xy_(mx / 2, my / 2), xy_(mx - 0.5, my - 0.5)])
+    back = info.transform.back([xy_(0.5, 0.5), xy_(nx / 2, ny / 2), xy_(nx - 0.5, ny - 0.5), xy_(0.5, ny - 0.5)])
+    return {
+        "roi_src": repr(info.roi_src), "roi_dst": repr(info.roi_dst), "scale": repr(float(info.scale)),
+        "scale2": repr(tuple(float(v) for v in info.scale2.xy)), "read_shrink": repr(info.read_shrink),
+        "paste_ok": repr(info.paste_ok), "transform": repr([tuple(float(v) for v in p.xy) for p in fwd]),
+        "transform.back": repr([tuple(float(v) for v in p.xy) for p in back]),
+        "transform.linear": repr(None if info.transform.linear is None else tuple(info.transform.linear)[:6]),
+    }
+
+
+def gen_H(maxlen):
+    for pair in PAIRS_H:
+        for n in range(maxlen + 1):
+            for seq in itertools.product(CALLS_H, repeat=n):
+                yield (pair, seq)
+
+
+def run_H(case):
+    pair, seq = case
+    src, dst, es, ed = _pair_H(PAIRS_H[pair])
+    ref_info = OV.compute_reproject_roi(src, dst)  # (1) reference: first thing the case does
+    ref = _snapshot(ref_info, src, dst)
+    res = [_interfere(name, src, dst) for name in seq]
+    src2, dst2, _, _ = _pair_H(PAIRS_H[pair])  # identical inputs, fresh objects
+    info = OV.compute_reproject_roi(src2, dst2)
+    got = _snapshot(info, src2, dst2)
+    after = "+".join(sorted({CALLS_H[n] for n in seq})) or "nothing"
+    what = f"pair {pair} {PAIRS_H[pair]}: plan, then {list(seq)} (-> {res}), then the same plan again"
+    r = R()
+    for field in ref:
+        if ref[field] != got[field]:
+            r.fail(f"reproject_roi:history-dependent:{pair}:after-{after}:{field}",
+                   f"{what}: {field} was {ref[field]} and is now {got[field]}")
+    # (2) state-independent clauses on BOTH plans: a worker that was poisoned before this case started gives the
+    # same wrong answer twice, but not the answer of the harness' own mapping
+    sshape, dshape = tuple(src.shape), tuple(dst.shape)
+    sA6, dA6 = affine6(src.transform), affine6(dst.transform)
+    xx, yy = centres(dshape)
+    for label, inf in (("first", ref_info), ("after", info)):
+        if es is None:
+            SX, SY = world_to_pix(sA6, *pix_to_world(dA6, xx, yy))
+            exp, rel = PAIRS_H[pair][2], 1e-9
+        else:
+            SX, SY = dst_to_src(sA6, dA6, es, ed, xx, yy)
+            exp, rel = None, 1e-6
+            if _roi_ok(inf.roi_dst) and not _area0(inf.roi_dst):
+                cy_ = (inf.roi_dst[0].start + inf.roi_dst[0].stop) / 2
+                cx_ = (inf.roi_dst[1].start + inf.roi_dst[1].stop) / 2
+                # documented radius 1: the 5-point least squares fit equals central differences with h = 1 exactly
+                px, py = dst_to_src(sA6, dA6, es, ed, [cx_ + 1, cx_ - 1, cx_, cx_], [cy_, cy_, cy_ + 1, cy_ - 1])
+                c0 = ((px[0] - px[1]) / 2, (py[0] - py[1]) / 2)
+                c1 = ((px[2] - px[3]) / 2, (py[2] - py[3]) / 2)
+                n0 = math.hypot(*c0)
+                exp = (n0, abs(c0[0] * c1[1] - c0[1] * c1[0]) / n0)
+        n_need = judge(r, f"history:{pair}:{label}-plan", what, inf, sshape, dshape, SX, SY, False, exp, rel)
+        check_transform(r, f"history:{pair}:{label}-plan", what, inf, dshape, SX, SY, corners_only=True)
+    raised = sorted({x for x in res if x != "ok"})
+    r.outcome = f"{pair}:len{len(seq)}:rs{min(int(info.read_shrink), 4)}:{_cover(info, dshape, n_need)}:{'calls-ok' if not raised else 'call-raised:' + ','.join(raised)}"
+    r.nontrivial = n_need > 0
+    return r
+
+
+# =================================================================================================
 def slices(tier):
     th = tier == "thorough"
     s_all = (0, 1, 2)
@@ -710,6 +862,10 @@ def slices(tier):
         e1.Slice("G-overhang", gen_G, run_G,
                  "lon/lat rasters (2.5/5/10 deg, <= 48x96) overhanging the poles and/or +-180 by half a pixel or several, as source "
                  "and as destination, against world rasters in EPSG:4087, 6933, 8857, Mollweide, 3857: the documented lon/lat clamp"),
+        e1.Slice("H-history", lambda: gen_H(3 if th else 2), run_H,
+                 "8 target pairs x every sequence of <= 2 (thorough 3) of 16 interfering public calls (get_scale_at_point with r in "
+                 "{None,0,0.5,16,1e3} on the same/another transform, plans of other pairs, native_pix_transform, out-of-range "
+                 "GbxPointTransform calls) between two computations of the same plan: identical result + state-independent clauses"),
     ]
     return out
 
@@ -732,6 +888,8 @@ def main(ctx):
               "continental": CONTINENTAL},
         "G": {"projections": list(PROJ_G), "geo_pixel_deg": RES_G, "lat_overhang": LAT_G, "lon_overhang": LON_G,
               "projected_pixel_deg_equiv": PDEG_G, "padding_align": PADAL_G, "directions": ["geo-src", "geo-dst"], "max_geo_raster": MAX_G},
+        "H": {"pairs": {k: list(v) for k, v in PAIRS_H.items()}, "interfering_calls": list(CALLS_H), "max_sequence": "2 (quick) / 3 (thorough)",
+              "other_pair": list(OTHER_H)},
         "max_raster": "48x48 (A, B); 48x96 geographic / 72x72 projected (G)", "eps_px": EPS,
     }
     ctx.assumptions = [
@@ -745,6 +903,10 @@ def main(ctx):
         "destination->source Jacobian; same-CRS cases are built without shear so this equals the column norms",
         "non-linear scale is compared at the centre of the reported roi_dst (the 'overlap'); nothing is compared when it is empty",
         "only an upper bound on read_shrink is stated by the property; no lower bound is demanded",
+        "histories (slice H): a plan computed twice in one case with interfering public calls in between must be identical "
+        "(differential, exact); because E1 workers are long-lived, both plans are additionally judged by the state-independent "
+        "clauses, with scale2 compared at 1e-6 relative against central differences (h = 1 px, the documented radius) of the "
+        "harness mapping; interfering calls may raise (e.g. r=0 is degenerate) - their own results are not judged",
         "overhanging lon/lat rasters (slice G): the code documents that coordinates of a geographic raster are clamped to "
         "lon [-180,180], lat [-90,90] so that edges reaching outside can still be converted; the oracle applies the same clamp in "
         "its own mapping and judges every destination centre that is a place on earth (lon/lat in range; projected destination: "
